@@ -79,10 +79,12 @@ class Path:
         self.conds: list = list(conds or [])
         self.ghost: dict[str, Any] = dict(ghost or {})
         self.labels: dict[str, L.Heap] = {}
+        self.cond_ids: set = set()  # ids of the (flattened) conjuncts assumed on this path
 
     def fork(self) -> "Path":
         p = Path(self.env, self.heap, self.conds, self.ghost)
         p.labels = dict(self.labels)
+        p.cond_ids = set(self.cond_ids)
         return p
 
     def assume(self, *fs):
@@ -93,6 +95,15 @@ class Path:
                 self.assume(*f)
             else:
                 self.conds.append(f)
+                self._index(f)
+
+    def _index(self, f, depth=0):
+        if not z3.is_expr(f):
+            return
+        self.cond_ids.add(f.get_id())
+        if z3.is_and(f) and depth < 6:
+            for ch in f.children():
+                self._index(ch, depth + 1)
 
 
 @dataclass
